@@ -50,6 +50,9 @@ def cells_swv(tier):
         yield bad
 
 
+CONV_DTYPES = [("float64", "int64"), ("float64", "float32"), ("float32", "float64"), ("int64", "float64"), ("float32", "float32"), ("int32", "int32"), ("float32", "int64"), ("float16", "float64")]
+
+
 def cells_conv(tier):
     top = 6 if tier == "quick" else 7
     for N, C, F in ((1, 1, 1), (2, 1, 2), (1, 2, 1)):
@@ -65,11 +68,27 @@ def cells_conv(tier):
     for a in axis_sets:
         for b in axis_sets:
             yield ("V", "conv", (1, 2, 2), (a[0], b[0]), (a[1], b[1]), (a[2], b[2]), (a[3], b[3]), (a[4], b[4]))
+    # operand dtypes (data, filters) and containers: the formula does not depend on them
+    for xdt, wdt in CONV_DTYPES:
+        for kx, kw_ in (("t", "t"), ("a", "t"), ("t", "a")):
+            for x in (3, 4, 5):
+                for w in (1, 2, 3):
+                    for s in (1, 2):
+                        for p in (0, 1, 2):
+                            for d in (1, 2):
+                                yield ("V", "convdt", (xdt, wdt, kx, kw_), (2, 2, 2), (x,), (w,), (s,), (p,), (d,))
+            yield ("V", "convdt", (xdt, wdt, kx, kw_), (1, 2, 2), (4, 3), (2, 3), (2, 1), (1, 0), (1, 1))
+            yield ("V", "convdt", (xdt, wdt, kx, kw_), (1, 1, 2), (3, 3), (3, 3), (1, 1), (1, 1), (1, 1))
     for lead in ((), (2,), (1, 2)):
         for x in range(1, top + 1):
             for w in (1, 2, 3):
                 for s in (1, 2, 3):
                     yield ("V", "pool", lead, (x,), (w,), (s,))
+    for dt in ("float32", "int64", "float16"):
+        for x in range(1, 6):
+            for w in (1, 2, 3):
+                for s in (1, 2, 3):
+                    yield ("V", "pooldt", dt, (2,), (x,), (w,), (s,))
     for a in ((4, 2, 2), (5, 2, 1), (3, 3, 1), (5, 3, 2), (4, 2, 1), (4, 3, 2)):
         for b in ((4, 2, 2), (5, 2, 1), (3, 3, 1), (5, 3, 2), (2, 2, 2)):
             yield ("V", "pool", (1,), (a[0], b[0]), (a[1], b[1]), (a[2], b[2]))
@@ -233,6 +252,51 @@ def check_conv(cell):
     import mygrad as mg
     from mygrad.nnet.layers import conv_nd, max_pool
 
+    if cell[1] == "pooldt":
+        _, _, dt, lead, x, w, s = cell
+        X = (vals(lead + x, 2) * 4).astype(dt)
+        valid = all(xi >= wi and (xi - wi) % si == 0 for xi, wi, si in zip(x, w, s))
+        try:
+            out = max_pool(mg.tensor(X), w, s[0])
+            err = None
+        except Exception as e:
+            err = base.exc_brief(e)
+            del e
+        if not valid:
+            return None if err is not None else ("accepted_invalid", "pooling placements do not tile the data, yet accepted")
+        if err is not None:
+            return ("rejected_valid", "%s: %s" % err)
+        grid = tuple((xi - wi) // si + 1 for xi, wi, si in zip(x, w, s))
+        ref = np.zeros(lead + grid, dtype=dt)
+        for n in np.ndindex(*lead):
+            for g in np.ndindex(*grid):
+                ref[n + g] = max(X[n + tuple(g[i] * s[i] + wi[i] for i in range(len(x)))] for wi in np.ndindex(*w))
+        if out.shape != ref.shape or out.dtype != ref.dtype or not np.array_equal(out.data, ref):
+            return ("value", "max_pool of %s data differs from the naive formula (dtype %s)" % (dt, out.dtype))
+        return None
+    if cell[1] == "convdt":
+        _, _, (xdt, wdt, kx, kw_), (N, C, F), x, w, s, p, d = cell
+        X = (vals((N, C) + x, 1) * 3).astype(xdt)
+        W = (vals((F, C) + w, 5) * 3).astype(wdt)
+        valid = conv_valid(x, w, s, p, d)
+        try:
+            out = conv_nd(mg.tensor(X) if kx == "t" else X, mg.tensor(W) if kw_ == "t" else W, stride=s if len(s) > 1 else s[0], padding=p if len(p) > 1 else p[0], dilation=d if len(d) > 1 else d[0])
+            err = None
+        except Exception as e:
+            err = base.exc_brief(e)
+            del e
+        if not valid:
+            return None if err is not None else ("accepted_invalid", "placements do not tile the padded data, yet accepted with out shape %s" % (out.shape,))
+        if err is not None:
+            return ("rejected_valid", "x=%s w=%s stride=%s pad=%s dil=%s: %s: %s" % ((x, w, s, p, d) + err))
+        ref = naive_conv(X.astype(np.float64), W.astype(np.float64), s, p, d)
+        rt = np.result_type(X, W)
+        tol = {"f": {2: 2e-2, 4: 1e-5, 8: 1e-12}[rt.itemsize], "i": 0}[rt.kind]
+        if out.dtype != rt:
+            return ("dtype", "conv_nd of %s data with %s filters returns %s (the products and sums of the formula are %s)" % (xdt, wdt, out.dtype, rt))
+        if out.shape != ref.shape or not np.allclose(out.data, ref, rtol=tol, atol=tol * max(1.0, float(np.abs(ref).max(initial=0)))):
+            return ("value", "conv_nd of %s data with %s filters differs from the naive formula by %g" % (xdt, wdt, float(np.abs(out.data - ref).max())))
+        return None
     if cell[1] == "conv":
         _, _, (N, C, F), x, w, s, p, d = cell
         X = vals((N, C) + x, 1)
@@ -405,6 +469,8 @@ def outcome(cell):
         return "ok:swv:" + ("valid" if swv_valid(cell[1], cell[3], cell[4], cell[5]) else "rejected")
     if cell[0] == "V" and cell[1] == "conv":
         return "ok:conv:" + ("valid" if conv_valid(*cell[3:]) else "rejected")
+    if cell[0] == "V" and cell[1] == "convdt":
+        return "ok:convdt:" + ("valid" if conv_valid(*cell[4:]) else "rejected")
     return "ok:" + str(cell[1])
 
 
@@ -441,9 +507,9 @@ def m_valid_dilated_conv_rejected(v):
     placements with (w-1)*d+1 <= x+2p < w*d in some axis."""
     f = v.get("failure") or {}
     cell = (v.get("case") or {}).get("cell")
-    if f.get("kind") != "rejected_valid" or not cell or cell[0] != "V" or cell[1] != "conv":
+    if f.get("kind") != "rejected_valid" or not cell or cell[0] != "V" or cell[1] not in ("conv", "convdt"):
         return False
-    x, w, s, p, d = cell[3:]
+    x, w, s, p, d = cell[3:] if cell[1] == "conv" else cell[4:]
     band = any((wi - 1) * di + 1 <= xi + 2 * pi < wi * di for xi, wi, pi, di in zip(x, w, p, d))
     return band and "dilated window" in f.get("detail", "")
 
